@@ -49,6 +49,22 @@ pub fn gen_head(rng: &Rng, max: usize, wild: bool) -> Vec<u8> {
         b"abcXYZ019_ "
     };
     let mut h = field(rng, max, alpha, wild);
+    if wild && rng.chance(1, 60) {
+        // a header of several hundred bytes with multi-byte and invalid UTF-8 sequences
+        let n = rng.range(200, 700);
+        h = (0..n)
+            .map(|_| match rng.below(12) {
+                0 => 0xc3,
+                1 => 0xa9,
+                2 => 0xe2,
+                3 => 0x82,
+                4 => 0xac,
+                5 => 0xff,
+                6 => b' ',
+                _ => *rng.pick(b"abcXYZ019_"),
+            })
+            .collect();
+    }
     // headers must not end in CR for the well-formed generators
     while h.last() == Some(&b'\r') {
         h.pop();
@@ -382,7 +398,36 @@ pub fn fastq_any(rng: &Rng, max_recs: usize, max_noise: usize) -> (Vec<u8>, &'st
             let at = rng.below(a.recs.len() as u64) as usize;
             fastq_defect(rng, &a, e, at)
         }
-        13..=15 => (hostile(rng, max_noise), "hostile"),
+        13..=14 => (hostile(rng, max_noise), "hostile"),
+        15 => {
+            if rng.chance(1, 2) {
+                // records of identical layout, one byte of a later record replaced by a structural byte
+                let len = rng.range(1, 8);
+                let n = rng.range(2, max_recs.max(2));
+                let mut v = vec![];
+                for i in 0..n {
+                    v.extend_from_slice(format!("@i{}\n", i % 10).as_bytes());
+                    v.extend((0..len).map(|_| *rng.pick(b"ACGT")));
+                    v.extend_from_slice(b"\n+\n");
+                    v.extend((0..len).map(|_| b'I'));
+                    v.push(b'\n');
+                }
+                let rec_len = v.len() / n;
+                let at = rec_len + rng.below((v.len() - rec_len) as u64) as usize;
+                if v[at] != b'\n' {
+                    v[at] = *rng.pick(b"\n\n\r@+");
+                }
+                (v, "uniform_substituted")
+            } else {
+                // a valid file followed by a short tail of CR / LF characters in any order
+                let a = gen_afastq(rng, max_recs, false);
+                let mut v = render_fastq(rng, &a, pick_ending(rng), true, 0);
+                for _ in 0..rng.range(1, 6) {
+                    v.push(*rng.pick(b"\r\n\r"));
+                }
+                (v, "crlf_tail")
+            }
+        }
         16 => (binary(rng, max_noise), "binary"),
         17..=18 => {
             let a = gen_afastq(rng, max_recs, true);
@@ -462,6 +507,8 @@ pub fn storm_cfg(rng: &Rng) -> Cfg {
         },
         cuts: vec![],
         faults: vec![],
+        // sometimes a long run of consecutive interruptions on top (retry budgets)
+        intr_burst: if rng.chance(1, 2) { Some((rng.range(0, 40), rng.range(200, 2500))) } else { None },
     }
 }
 
@@ -577,6 +624,7 @@ pub fn gen_permissive_policy(rng: &Rng, input_len: usize) -> PolicySpec {
         7 => PolicySpec::Add(1),
         8 => PolicySpec::Add(rng.range(2, 9)),
         9 => PolicySpec::Mul(3),
+        10 if rng.chance(1, 2) => PolicySpec::Stall(rng.range(1, 4)),
         10 => PolicySpec::JumpTo(input_len + rng.range(1, 20)),
         _ => PolicySpec::DoubleUntilLimited(rng.range(1, 64), 1 << 20),
     }
@@ -592,6 +640,17 @@ pub fn gen_refusing_policy(rng: &Rng, cap: usize) -> PolicySpec {
     }
 }
 
+/// how an injected io::Error is built (see scn::Fault::payload)
+pub fn gen_payload(rng: &Rng) -> String {
+    match rng.below(8) {
+        0..=3 => String::new(),
+        4 => "msg".into(),
+        5 => format!("nested:{}", rng.pick(&["Interrupted", "BrokenPipe", "UnexpectedEof", "Other"])),
+        6 => "nested:Interrupted".into(),
+        _ => "seqio".into(),
+    }
+}
+
 pub fn gen_cfg(rng: &Rng, input: &[u8], interrupts: bool) -> Cfg {
     let cap = gen_cap(rng, input);
     Cfg {
@@ -599,6 +658,7 @@ pub fn gen_cfg(rng: &Rng, input: &[u8], interrupts: bool) -> Cfg {
         policy: gen_permissive_policy(rng, input.len()),
         script: gen_script(rng, interrupts),
         cuts: gen_cuts(rng, input),
+        intr_burst: if interrupts && rng.chance(1, 40) { Some((rng.small(12), rng.range(7, 40))) } else { None },
         faults: vec![],
     }
 }
@@ -642,7 +702,7 @@ pub fn gen_history(rng: &Rng, mix: OpMix, len: usize, n_items: usize, tail: bool
             x -= mix.set;
             x < mix.exact
         } {
-            Op::ReadSetExact(rng.below(N_SLOTS as u64) as usize, 1 + rng.small(5))
+            Op::ReadSetExact(rng.below(N_SLOTS as u64) as usize, if rng.chance(1, 40) { *rng.pick(&[usize::MAX, usize::MAX - 1, 1 << 40, 1 << 31, 65536]) } else { 1 + rng.small(5) })
         } else if {
             x -= mix.exact;
             x < mix.seek
